@@ -348,8 +348,16 @@ async def check_snapshot(loop, ctx, rig: Rig, include_expired: bool, meta: dict[
         for name, g, ref_schema, ref_pkts in (("fresh", gwy_b, schema_b, pkts_b), ("original", gwy_a, schema_a, pkts_a)):
             try:
                 await asyncio.wait_for(g._restore_cached_packets(dict(gwy_a._vrf_raw_pkts)), timeout=600)
+                at_once = snap(g, include_expired)[1]  # a snapshot in the very loop iteration in which the restore returned
                 await vloop.drain(loop, 10)
                 schema_c, pkts_c = snap(g, include_expired)
+                ctx.count("idempotence.snapshots_at_once")
+                if set(pkts_c) - set(at_once):
+                    ctx.violate(
+                        f"C16|idempotence|state-incomplete-when-restore-returns|{name}",
+                        "a snapshot taken as soon as the restore has returned lacks packets that a snapshot a moment later holds (the restore returned before its last packets were taken in)",
+                        {"missing_at_once": sorted(set(pkts_c) - set(at_once))[:4], "stack": rig.stack, "history": meta},
+                    )
             except Exception as err:  # noqa: BLE001
                 ctx.count("idempotence.raised")
                 ctx.info.setdefault("idempotence_raised", []).append(f"{type(err).__name__}@{innermost_lib_frame(err)}")
